@@ -21,6 +21,11 @@ HREF_RE = re.compile(r'href="([^"]*)"')
 CORE_JS = "/static/django_components/django_components.min.js"
 
 
+def static_url(f):
+    """URL django.forms.Media gives a declared file: absolute paths / URLs stay, anything else goes under STATIC_URL."""
+    return f if f.startswith(("http://", "https://", "/")) else "/static/" + f
+
+
 def default_params(tier):
     p = progmod.default_params(tier, elems=True, assets=True, page_wrap=True,
                                forbid=["only", "provide", "inject_default", "negative", "aliases", "faults"])
@@ -128,18 +133,18 @@ def check_document(final, exp, model_text, wrap, class_hash):
         return ("INLINE-JS", f"inline scripts {p['inline_js']!r}, expected {want_js!r} (classes {exp['classes']})")
     if p["inline_css"] != want_css:
         return ("INLINE-CSS", f"inline styles {p['inline_css']!r}, expected {want_css!r} (classes {exp['classes']})")
-    want_src = sorted(["/static/" + f for f in exp["media_js"]] + [CORE_JS]) if js_delivered else []
+    want_src = sorted([static_url(f) for f in exp["media_js"]] + [CORE_JS]) if js_delivered else []
     if sorted(p["src_js"]) != want_src:
         return ("MEDIA-JS", f"script src {sorted(p['src_js'])}, expected {want_src}")
-    want_links = sorted("/static/" + f for f in exp["media_css"]) if css_delivered else []
+    want_links = sorted(static_url(f) for f in exp["media_css"]) if css_delivered else []
     if sorted(p["links"]) != want_links:
         return ("MEDIA-CSS", f"link href {sorted(p['links'])}, expected {want_links}")
     if js_delivered:
         if len(p["json"]) > 1:
             return ("MANIFEST", "more than one data-djc JSON block")
         data = json.loads(p["json"][0]) if p["json"] else {"loadedJsUrls": [], "loadedCssUrls": [], "toLoadJsTags": [], "toLoadCssTags": []}
-        want_loaded_js = sorted(["/components/cache/%s.js" % class_hash[n] for n, _ in exp["js"]] + ["/static/" + f for f in exp["media_js"]])
-        want_loaded_css = sorted(["/components/cache/%s.css" % class_hash[n] for n, _ in exp["css"]] + ["/static/" + f for f in exp["media_css"]])
+        want_loaded_js = sorted(["/components/cache/%s.js" % class_hash[n] for n, _ in exp["js"]] + [static_url(f) for f in exp["media_js"]])
+        want_loaded_css = sorted(["/components/cache/%s.css" % class_hash[n] for n, _ in exp["css"]] + [static_url(f) for f in exp["media_css"]])
         if sorted(b64list(data["loadedJsUrls"])) != want_loaded_js:
             return ("MANIFEST", f"loadedJsUrls {sorted(b64list(data['loadedJsUrls']))}, expected {want_loaded_js}")
         if sorted(b64list(data["loadedCssUrls"])) != want_loaded_css:
@@ -159,8 +164,8 @@ def check_fragment(final, exp, model_text, class_hash):
         return ("OUTPUT", f"fragment text differs from the model: {rest[:300]!r} vs {model_text[:300]!r}")
     if p["inline_js"] or p["inline_css"] or p["src_js"] or p["links"]:
         return ("FRAGMENT-INLINE", "fragment mode inlined scripts / styles / tags into the HTML")
-    want_js = sorted(["/components/cache/%s.js" % class_hash[n] for n, _ in exp["js"]] + ["/static/" + f for f in exp["media_js"]])
-    want_css = sorted(["/components/cache/%s.css" % class_hash[n] for n, _ in exp["css"]] + ["/static/" + f for f in exp["media_css"]])
+    want_js = sorted(["/components/cache/%s.js" % class_hash[n] for n, _ in exp["js"]] + [static_url(f) for f in exp["media_js"]])
+    want_css = sorted(["/components/cache/%s.css" % class_hash[n] for n, _ in exp["css"]] + [static_url(f) for f in exp["media_css"]])
     if not p["json"]:
         if want_js or want_css:
             return ("MANIFEST", "fragment declares nothing to the client-side loader")
